@@ -346,10 +346,19 @@ def classify(err, rs_line=""):
     return "other", None
 
 
-def cleanup(keep_target=False):
-    for n in os.listdir(SCRATCH) if os.path.isdir(SCRATCH) else []:
+def cleanup(keep_target=False, keep_work=False):
+    """remove the per-run crates (always), the case directories and tables (unless keep_work) and the
+    shared cargo target directory (unless keep_target: it only caches the compiled dependencies)"""
+    if not os.path.isdir(SCRATCH):
+        return
+    for n in os.listdir(SCRATCH):
         p = os.path.join(SCRATCH, n)
-        if n == "target" and keep_target:
-            continue
-        if n in ("target",) or n.startswith("crate_"):
+        if n == "target":
+            if not keep_target:
+                shutil.rmtree(p, ignore_errors=True)
+        elif n.startswith("crate_"):
             shutil.rmtree(p, ignore_errors=True)
+        elif not keep_work and (re.match(r"w\d+_\d+$", n) or n == "replay"):
+            shutil.rmtree(p, ignore_errors=True)
+        elif not keep_work and re.match(r"(types|pairs)\d*\.txt$", n):
+            os.remove(p)
